@@ -230,6 +230,13 @@ theorem frag_nonZero_sat (h : EnvOk env ctx) {x : Ms} {a : Bytes} {s s' : List B
   simp [frag, opc_eq h, cnd_eq h, execOpc, condPop, castToBool, e, pushElem_ok h, countOp_ok h,
     hn.num4 env, boolBytes, hne, ha, bind, Except.bind]
 
+theorem frag_nonZero_dis (h : EnvOk env ctx) (x : Ms) (s : List Bytes) :
+    Runs (frag env ke ctx (.nonZero x)) ([] :: s) ([] :: s) := by
+  intro alt ops
+  have e0 : numEncode 0 = [] := by decide
+  simp [frag, opc_eq h, cnd_eq h, execOpc, condPop, castToBool, pushElem_ok h, countOp_ok h,
+    skipCount_ok h, e0, num4_nil env, boolBytes, bind, Except.bind]
+
 /-! ### binary fragments -/
 
 theorem frag_andV (_h : EnvOk env ctx) {l r : Ms} {s s1 s2 : List Bytes}
